@@ -242,7 +242,7 @@ func runC05(r *Run) {
 			}
 			nAcc++
 			recv, nm, args, isM := methodCall(as.Rhs[0])
-			good := as.Tok == token.ASSIGN && isM && nm == "Add" && len(args) == 1 && exprString(recv) == exprString(sel)
+			good := as.Tok == token.ASSIGN && isM && nm == "Add" && len(args) == 1 && (exprString(recv) == exprString(sel) || exprString(args[0]) == exprString(sel))
 			if as.Tok == token.ADD_ASSIGN {
 				good = true
 			}
